@@ -53,6 +53,72 @@ theorem C06_keys_table_shape :
     ∧ Gen.VmfKeys.table.all (fun c => !c.writtenKeys.isEmpty) = true := by decide +kernel
 
 
+/-- The literal defaults of the readers (class, accessor, key, default) the model was written
+against: `getInt "lightmapscale" 16`, `mkV3 0 64 0` for a camera's `look`, … in Model/C06.lean.
+A default changed in the source changes the generated table and breaks this obligation; the
+model's own defaults are compared with the implementation on key-dropped documents by the
+correspondence. -/
+def readerDefaults : List (String × String × String × String) := [
+  ("VMF", "str", "formatversion", "'100'"),
+  ("VMF", "int", "editorversion", "400"),
+  ("VMF", "int", "editorbuild", "5304"),
+  ("VMF", "bool", "prefab", "False"),
+  ("VMF", "int", "mapversion", "0"),
+  ("VMF", "bool", "bSnapToGrid", "True"),
+  ("VMF", "bool", "bShowGrid", "True"),
+  ("VMF", "bool", "bShow3DGrid", "False"),
+  ("VMF", "bool", "bShowLogicalGrid", "False"),
+  ("VMF", "int", "nGridSpacing", "64"),
+  ("VMF", "bool", "active", "False"),
+  ("VMF", "int", "activecamera", "-1"),
+  ("VMF", "int", "count", "0"),
+  ("VMF", "vec", "position", "0.0 0.0 0.0"),
+  ("VMF", "bool", "3d", "expr:key == 'v0'"),
+  ("VMF", "float", "zoom", "1.0"),
+  ("VMF", "str", "angle", "'[0 0 0]'"),
+  ("Entity", "conv_bool", "editor", "True"),
+  ("Entity", "from_str", "editor", "255 255 255"),
+  ("Entity", "conv_bool", "visgroupshown", "True"),
+  ("Entity", "conv_bool", "visgroupautoshown", "True"),
+  ("Entity", "from_str", "color", "255 255 255"),
+  ("Solid", "int", "id", "-1"),
+  ("Solid", "conv_bool", "visgroupshown", "True"),
+  ("Solid", "conv_bool", "visgroupautoshown", "True"),
+  ("Solid", "from_str", "color", "255 255 255"),
+  ("Side", "int", "id", "-1"),
+  ("Side", "int", "lightmapscale", "16"),
+  ("Side", "int", "smoothing_groups", "0"),
+  ("Side", "str", "material", "''"),
+  ("Side", "float", "rotation", "0.0"),
+  ("Side", "str", "uaxis", "'[0 1 0 0] 0.25'"),
+  ("Side", "str", "vaxis", "'[0 0 -1 0] 0.25'"),
+  ("Side", "str", "plane", "'(0 0 0) (0 0 0) (0 0 0)'"),
+  ("Side", "str", "plane", "''"),
+  ("Side", "int", "power", "4"),
+  ("Side", "vec", "startposition", "0.0 0.0 0.0"),
+  ("Side", "float", "elevation", "0.0"),
+  ("Side", "int", "flags", "0"),
+  ("Side", "bool", "subdiv", "False"),
+  ("Side", "int", "numpts", "0"),
+  ("Side", "from_str", "point", ""),
+  ("VisGroup", "int", "visgroupid", "-1"),
+  ("VisGroup", "str", "name", "expr:f'VisGroup_{vis_id}'"),
+  ("VisGroup", "vec", "color", "255 255 255"),
+  ("EntityGroup", "int", "id", "-1"),
+  ("EntityGroup", "bool", "visgroupshown", "True"),
+  ("EntityGroup", "bool", "visgroupautoshown", "True"),
+  ("EntityGroup", "vec", "color", "255 255 255"),
+  ("Camera", "vec", "position", "0.0 0.0 0.0"),
+  ("Camera", "vec", "look", "0.0 64.0 0.0"),
+  ("Cordon", "str", "name", "'cordon'"),
+  ("Cordon", "bool", "active", "False"),
+  ("Cordon", "vec", "mins", "0 0 0"),
+  ("Cordon", "vec", "maxs", "128 128 128")
+]
+
+/-- OBLIGATION on the current source: the readers' literal defaults are the ones modelled. -/
+theorem C06_reader_defaults : Gen.VmfKeys.defaults = readerDefaults := by decide +kernel
+
 /-! ## Tree-level round trip
 
 `exportTree o m` is the keyvalues tree of `VMF.export()` (model of the writer), `parseTree true`
